@@ -5,6 +5,27 @@ restated at the end of Props/C01.v / Props/C02.v.
 _DO_CALL = ['cnarr', 'variants', 'method', 'ploidy', 'purity', 'is_haploid_x_reference', 'is_sample_female',
             'diploid_parx_genome', 'filters', 'thresholds']
 
+_ROW = [('self.chromosome', 'S', 'chromosome'), ('self.start', 'Z', 'start'), ('self.end', 'Z', 'end_')]
+
+
+def _par_filter(name, coq, label, k1, k2):
+    return dict(name='CopyNumArray.' + name, coq=coq, py_params=['self', 'genome_build'],
+                params=_ROW + [('genome_build', 'S'), ('self.' + label, 'S', 'label'),
+                               ("params.PSEUDO_AUTSOMAL_REGIONS[genome_build]['%s'][0]" % k1, 'Z', 'par1_lo'),
+                               ("params.PSEUDO_AUTSOMAL_REGIONS[genome_build]['%s'][1]" % k1, 'Z', 'par1_hi'),
+                               ("params.PSEUDO_AUTSOMAL_REGIONS[genome_build]['%s'][0]" % k2, 'Z', 'par2_lo'),
+                               ("params.PSEUDO_AUTSOMAL_REGIONS[genome_build]['%s'][1]" % k2, 'Z', 'par2_hi')],
+                ret='B')
+
+
+def _chr_filter(name, coq, label, par_call):
+    return dict(name='CopyNumArray.' + name, coq=coq, py_params=['self', 'diploid_parx_genome'],
+                params=[('self.chromosome', 'S', 'chromosome'), ('self.' + label, 'S', 'label'),
+                        ('diploid_parx_genome is not None', 'B', 'has_build'),
+                        (par_call, 'B', 'in_par')],
+                ret='B')
+
+
 MODULES = {
     # do_call, the statement `if method != "none": outarr["cn"] = absolutes.round().astype("int"); if "baf" in outarr: ...`
     # WHOLE (the first batch's fn_alleles is the inner range with cn as an input): which method writes a cn column, the
@@ -55,5 +76,22 @@ MODULES = {
                       'Q', 'clonal')],
              fragment=dict(first='absolutes = absolute_clonal(', last='absolutes = absolute_clonal('),
              returns=['absolutes'], ret='Q'),
+    ]),
+    # the row masks of cnvlib/cnary.py that the purity-adjusted path reads (chr_x_filter / parx_filter / chr_y_filter /
+    # pary_filter, WHOLE functions read per row, as in cnary_loops.py for C15) and the two labels they compare with
+    # (chr_x_label / chr_y_label, WHOLE properties: the meta cache, the first row's "chr" prefix, the empty table)
+    'FnCallRowClass': ('cnvlib/cnary.py', [
+        _par_filter('parx_filter', 'fn_rc_parx_filter', 'chr_x_label', 'PAR1X', 'PAR2X'),
+        _chr_filter('chr_x_filter', 'fn_rc_chr_x_filter', 'chr_x_label', 'self.parx_filter(genome_build=diploid_parx_genome)'),
+        _par_filter('pary_filter', 'fn_rc_pary_filter', 'chr_y_label', 'PAR1Y', 'PAR2Y'),
+        _chr_filter('chr_y_filter', 'fn_rc_chr_y_filter', 'chr_y_label', 'self.pary_filter(genome_build=diploid_parx_genome)'),
+        dict(name='CopyNumArray.chr_x_label', coq='fn_rc_chr_x_label', py_params=['self'],
+             params=[('key in self.meta', 'B', 'cached'), ('self.meta[key]', 'S', 'cached_label'), ('len(self)', 'Z', 'n_rows'),
+                     ('self.chromosome.iat[0]', 'S', 'first')],
+             ret='S'),
+        dict(name='CopyNumArray.chr_y_label', coq='fn_rc_chr_y_label', py_params=['self'],
+             params=[("'chr_y' in self.meta", 'B', 'cached'), ("self.meta['chr_y']", 'S', 'cached_label'), ('len(self)', 'Z', 'n_rows'),
+                     ('self.chr_x_label', 'S', 'x_label')],
+             ret='S'),
     ]),
 }
